@@ -81,7 +81,9 @@ def run(ctx):
                    % (bare, [b.locals[i]['ty'] for i in bare]) if bare else '', construct='yield:bare-object:' + b.name)
             # --- cross-check with the compiler's layout ------------------------
             if b.layout:
-                variants = [v for v in b.layout if v['idx'] >= 3 and v['line'] == line]
+                # a suspension point of an inlined async helper is, for the layout of this coroutine, the await of the helper
+                lline = y.term.j.get('await_line', line)
+                variants = [v for v in b.layout if v['idx'] >= 3 and v['line'] == lline]
                 if not variants:
                     ctx.undecide('R03.1x', 'no coroutine layout variant on line %s of %s' % (line, b.name))
                 else:
